@@ -46,6 +46,7 @@ type E struct {
 //
 //	K = "var"    var x T = A    (T == "" → inferred; A == nil → zero value)
 //	    "short"  x := A
+//	    "short2" x, y := A, B    (ID, ID2; a name already declared in the scope is assigned)
 //	    "const"  const x T = A  (T == "" → untyped/inferred)
 //	    "asg"    x = A
 //	    "blank"  _ = A
@@ -55,9 +56,11 @@ type E struct {
 type S struct {
 	K   string
 	ID  int
+	ID2 int
 	T   string
 	Op  string
 	A   *E
+	B   *E
 	Raw string
 }
 
@@ -95,6 +98,7 @@ func (e *E) clone() *E {
 func (s *S) clone() *S {
 	c := *s
 	c.A = s.A.clone()
+	c.B = s.B.clone()
 	return &c
 }
 
@@ -112,7 +116,7 @@ func (p *Prog) inModel() bool {
 		return false
 	}
 	for _, s := range p.Stmts {
-		if s.K == "raw" || (s.A != nil && !s.A.inModel()) {
+		if s.K == "raw" || (s.A != nil && !s.A.inModel()) || (s.B != nil && !s.B.inModel()) {
 			return false
 		}
 	}
@@ -212,6 +216,8 @@ func (s *S) src() string {
 		return out
 	case "short":
 		return name(s.ID) + " := " + s.A.src()
+	case "short2":
+		return name(s.ID) + ", " + name(s.ID2) + " := " + s.A.src() + ", " + s.B.src()
 	case "const":
 		out := "const " + name(s.ID)
 		if s.T != "" {
@@ -328,6 +334,10 @@ func (s *S) prefix(b *strings.Builder) {
 	case "short":
 		fmt.Fprintf(b, " short %d", s.ID)
 		s.A.prefix(b)
+	case "short2":
+		fmt.Fprintf(b, " short2 %d %d", s.ID, s.ID2)
+		s.A.prefix(b)
+		s.B.prefix(b)
 	case "const":
 		if s.T == "" {
 			fmt.Fprintf(b, " consti %d", s.ID)
@@ -383,6 +393,9 @@ func (p *Prog) walk(f func(e *E, set func(*E))) {
 		s := s
 		if s.A != nil {
 			rec(s.A, func(n *E) { s.A = n })
+		}
+		if s.B != nil {
+			rec(s.B, func(n *E) { s.B = n })
 		}
 	}
 }
